@@ -8,6 +8,15 @@ Local Open Scope Q_scope.
 Definition vmag (v : vec3 Q) : Q := Qmax' (Qabs (vx v)) (Qmax' (Qabs (vy v)) (Qabs (vz v))).
 Definition mag_of (vs : list (vec3 Q)) : Q := fold_left (fun m p => Qmax' m (vmag p)) vs 0.
 
+(* closeness relative to the magnitude of the input data only (no absolute floor): geometry at scale 1e-9 is
+   compared as strictly as geometry at scale 1 *)
+Definition close_rel (mag a b : Q) : bool :=
+  Qle_bool (Qabs (a - b)) (tol * Qmax' mag (Qmax' (Qabs a) (Qabs b))).
+Definition fl_close_rel (mag m : Q) (o : fl) : bool := match o with Fin q => close_rel mag m q | _ => false end.
+Definition list_close_rel mag (m : list Q) (o : list fl) : bool := all2 (fl_close_rel mag) m o.
+Definition vec_close_rel mag (m : vec3 Q) (o : list fl) : bool := list_close_rel mag (vlist m) o.
+Definition vecs_close_rel mag (m : list (vec3 Q)) (o : list (list fl)) : bool := all2 (vec_close_rel mag) m o.
+
 Inductive case :=
 | CLengths (pl : polyline Q) (lens : list fl) (total : fl) (centroid : result (list fl))
 | CPointAlong (pl : polyline Q) (fs : list Q) (obs : result (list (list fl)))
@@ -19,7 +28,7 @@ Inductive case :=
 
 Definition row_agree (mag : Q) (m : option (vec3 Q)) (o : list fl) : bool :=
   match m with
-  | Some v => vec_close_mag mag v o
+  | Some v => vec_close_rel mag v o
   | None => forallb fl_is_nan o && Nat.eqb (length o) 3
   end.
 
@@ -34,25 +43,25 @@ Definition check_case (c : case) : bool :=
   match c with
   | CLengths pl lens total centroid =>
       let mag := mag_of (pv pl) in
-      list_close_mag mag (segment_lengths QOps pl) lens &&
-      fl_close_mag mag (total_length QOps pl) total &&
-      res_agree (vec_close_mag mag) (path_centroid QOps pl) centroid
+      list_close_rel mag (segment_lengths QOps pl) lens &&
+      fl_close_rel mag (total_length QOps pl) total &&
+      res_agree (vec_close_rel mag) (path_centroid QOps pl) centroid
   | CPointAlong pl fs obs =>
-      res_agree (vecs_close_mag (mag_of (pv pl))) (point_along_path QOps pl fs) obs
+      res_agree (vecs_close_rel (mag_of (pv pl))) (point_along_path QOps pl fs) obs
   | CSubdivSeg p1 p2 num endpoint obs =>
-      res_agree (vecs_close_mag (mag_of [p1; p2])) (subdivide_segment QOps p1 p2 num endpoint) obs
+      res_agree (vecs_close_rel (mag_of [p1; p2])) (subdivide_segment QOps p1 p2 num endpoint) obs
   | CSubdivSegs vs num obs =>
       all2 (row_agree (mag_of vs)) (subdivide_segments QOps vs num) obs
   | CSubdivLen exact pl max_length mask obs =>
       negb (forallb (parts_decided exact max_length) (pl_segments pl)) ||
-      res_agree (fun m o => vecs_close_mag (mag_of (pv pl)) (pv (fst m)) (fst (fst o)) &&
+      res_agree (fun m o => vecs_close_rel (mag_of (pv pl)) (pv (fst m)) (fst (fst o)) &&
                             Bool.eqb (pclosed (fst m)) (snd (fst o)) && nat_list_eqb (snd m) (snd o))
                 (subdivided_by_length QOps pl max_length mask) obs
   | CBisect pl idx obs =>
       res_agree (fun m o =>
                    match m, o with
                    | (mp, mo, mi), (ov, oc, oo, oi) =>
-                       vecs_close_mag (mag_of (pv pl)) (pv mp) ov && Bool.eqb (pclosed mp) oc &&
+                       vecs_close_rel (mag_of (pv pl)) (pv mp) ov && Bool.eqb (pclosed mp) oc &&
                        nat_list_eqb mo oo && nat_list_eqb mi oi
                    end)
                 (bisect QOps pl idx) obs
